@@ -119,6 +119,51 @@ func c04DefaultDeny(c *Ctx) {
 		}
 	}
 
+	// R7: once the WAL header salts differ from the synced file's and the last
+	// synced frame is still intact, the old cursor points into the previous
+	// generation: whatever verify decides, the copy must restart at the WAL header
+	// with the current salts (otherwise sync resumes inside the stale generation,
+	// NewWALReaderWithOffset accepts the intact previous frame, and stale frames
+	// are copied over newer pages).
+	{
+		const rule7 = "R7-restart-reads-from-header"
+		saltBad := truthFact(isSaltMatch, false, "!saltMatch")
+		n7 := 0
+		for _, r := range successReturns(fn) {
+			g1, k1 := guardedBy(r, lastOK)
+			g2, k2 := guardedBy(r, saltBad)
+			if !(k1 > 0 && g1 && k2 > 0 && g2) {
+				continue
+			}
+			n7++
+			okOff, okS1, okS2 := false, false, false
+			for _, st := range storesToField(fn, "syncInfo.offset") {
+				if vConstInt(32)(st.Val) && dominates(st, r) {
+					if g, k := guardedBy(st, saltBad); k > 0 && g {
+						okOff = true
+					}
+				}
+			}
+			for _, st := range storesToField(fn, "syncInfo.salt1") {
+				if vU32At(nil, 16)(st.Val) && dominates(st, r) {
+					if g, k := guardedBy(st, saltBad); k > 0 && g {
+						okS1 = true
+					}
+				}
+			}
+			for _, st := range storesToField(fn, "syncInfo.salt2") {
+				if vU32At(nil, 20)(st.Val) && dominates(st, r) {
+					if g, k := guardedBy(st, saltBad); k > 0 && g {
+						okS2 = true
+					}
+				}
+			}
+			c.check(okOff && okS1 && okS2, rule7, name+": a return on the restarted-WAL path (salts changed, last synced frame intact) carries offset = WALHeaderSize and the current header salts", c.pos(r),
+				"info.offset = 32 and info.salt1/2 = wal hdr[16:]/[20:] dominate the return", "the cursor still points into the previous WAL generation: the copy resumes at the stale offset with the old salts and replicates stale frames")
+		}
+		c.floor(rule7, n7, 2, "returns on the restarted-WAL path")
+	}
+
 	// R5: the cursor-tail inspection reads the WAL at the old cursor (info.offset before it is reset), with the old salts
 	const rule5 = "R5-cursor-tail-inspected"
 	calls5 := callsTo(fn, nameIs("(*ls.DB).walGenerationGrewPast"))
@@ -431,7 +476,27 @@ func c04Behind(c *Ctx) {
 			if reachable(fn, nil, nil)[r.Block()] {
 				fetched := false
 				for _, o := range callSitesV(fn, nameHasSuffix(".OpenLTXFile")) {
-					if dominates(o.At(), r) {
+					if !dominates(o.At(), r) {
+						continue
+					}
+					// ... and the fetch succeeded: the return lies behind the nil edge of the
+					// fetch's error (or returns the extracted helper's own result)
+					at, isCall := o.At().(ssa.CallInstruction)
+					if !isCall {
+						continue
+					}
+					idx := errResultIndex(at.Common().Signature())
+					if idx < 0 {
+						continue
+					}
+					ferr := resultOf(at, idx)
+					if ferr == nil {
+						continue
+					}
+					if g, k := guardedBy(r, cmpFact(vIs(ferr), token.EQL, vNil(), "")); k > 0 && g {
+						fetched = true
+					}
+					if eo := errOperand(r); eo != nil && eo == ferr {
 						fetched = true
 					}
 				}
